@@ -17,7 +17,19 @@ def regen_source(ctx):
     checklib.write_gen(ctx, out, open(tmp).read())
     # the same functions as terms of the small imperative language interpreted by Hive/Model/SeqGo.lean (Props/C07d.lean)
     checklib.write_gen(ctx, out_ast, open(tmp_ast).read())
-    return []
+    # the store layers the Sequence relies on (Get / Set / realm views of debug, flushkv, mapdb): statements pinned by
+    # C07_source_store_* (Hive/Props/C07h.lean), the text the layer models of Hive/Model/SeqStore.lean were written against
+    fails = []
+    for mod, rel in (("SrcDebug", "kvstore/debug/debug.go"), ("SrcFlush", "kvstore/flushkv/flushkv.go"),
+                     ("SrcMapdb", "kvstore/mapdb/mapdb.go"), ("SrcSynced", "kvstore/mapdb/synced_map.go")):
+        tmp_l = os.path.join(ctx.scratch, "C07_%s.lean" % mod)
+        rc, log = checklib.sh(["go", "run", "./c07/srcgen", tmp_l, "Hive.Gen.C07" + mod, os.path.join(ctx.repo, rel)],
+                              cwd=checklib.HARNESS, timeout=600)
+        if rc != 0 or not os.path.exists(tmp_l):
+            fails.append({"kind": "source-extractor", "detail": rel + ": " + checklib.tail(log, 20)})
+            continue
+        checklib.write_gen(ctx, os.path.join(checklib.LEAN, "Hive", "Gen", "C07_%s.lean" % mod), open(tmp_l).read())
+    return fails
 
 
 def regen(ctx):
@@ -27,9 +39,9 @@ def regen(ctx):
 
 
 SPEC = {
-    "lean_props": ["Hive.Props.C07", "Hive.Props.C07b", "Hive.Props.C07c", "Hive.Props.C07d", "Hive.Props.C07e", "Hive.Props.C07f"],
+    "lean_props": ["Hive.Props.C07", "Hive.Props.C07b", "Hive.Props.C07c", "Hive.Props.C07d", "Hive.Props.C07e", "Hive.Props.C07f", "Hive.Props.C07g", "Hive.Props.C07h"],
     "regen": regen,
-    "lean_namespace": ["Hive.Seq", "Hive.Seq.Conc", "Hive.Seq.Layered", "Hive.Seq.Go", "Hive.Seq.Multi"],
+    "lean_namespace": ["Hive.Seq", "Hive.Seq.Conc", "Hive.Seq.Layered", "Hive.Seq.Go", "Hive.Seq.Multi", "Hive.Seq.Mem"],
     "driver": "drv_c07",
     "harness": "c07",
     "theorems": ["C07_strictly_increasing", "C07_release_wastes_none", "C07_crash_wastes_le_interval",
@@ -45,7 +57,13 @@ SPEC = {
                  # the sequential model derived from the source (Hive/Props/C07d.lean): the functions of sequence.go, translated on every run, interpreted in Lean
                  "C07_generated_supported", "C07_generated_new", "C07_generated_next", "C07_generated_release", "C07_generated_crash_points", "C07_generated_applies_to_reachable",
                  # several sequences with different keys over one store (Hive/Props/C07f.lean, model Hive/Model/SeqMulti.lean): a product of independent sequences
-                 "C07_sequences_independent", "C07_requests_on_different_keys_commute", "C07_per_key_strictly_increasing", "C07_per_key_waste", "C07_shared_buffer_witness"],
+                 "C07_sequences_independent", "C07_requests_on_different_keys_commute", "C07_per_key_strictly_increasing", "C07_per_key_waste", "C07_shared_buffer_witness",
+                 # the value handed to store.Set is a fresh private copy (Hive/Props/C07g.lean, memory-level model Hive/Model/SeqMem.lean)
+                 "C07_stored_value_is_private_copy", "C07_commit_stores_what_was_encoded", "C07_per_object_buffer_needs_copying_store",
+                 "C07_aliased_buffer_witness", "C07_pooled_buffer_witness",
+                 # every wrapper stack of the module is faithful (Hive/Props/C07c.lean) and the store layers' source text is pinned (Hive/Props/C07h.lean)
+                 "C07_store_contract_stack", "C07_no_reuse_over_every_stack", "C07_silent_debug_store_witness",
+                 "C07_source_store_debug", "C07_source_store_flushkv", "C07_source_store_mapdb", "C07_source_store_map_copies"],
     "trusted_base": ["hand-written model Hive/Model/Seq.lean of kvstore/sequence.go, tied by differential execution (harness/c07) and - for the calls NewSequence / Next / Release incl. failing store calls - PROVED equal to the interpretation of the source: harness/c07/srcgen translates sequence.go (go/ast) into terms of the small imperative language of Hive/Model/SeqGo.lean on every run, C07_generated_* prove that the interpreted terms compute the model's steps; trusted there: the translator (~300 lines of Go) and the interpreter's semantics of the language (wrapping uint64 arithmetic, early return, tagless switch); crash points are boundaries between the store calls of these functions (skeleton obligations)",
                      "hand-written protocol model Hive/Model/SeqConc.lean (micro-steps of Next/update/Release under seq.Mutex), tied by the regenerated lock/store-call skeletons and by recorded concurrent histories judged with the theorems' trace predicate ('chist' requests)",
                      "Go toolchain, compiled Lean driver"],
